@@ -37,7 +37,7 @@ def decode_fmt(bs):
     return out
 
 
-def format_calls(h, env):
+def format_calls(h, env, accessors=None):
     """[(template, [origin sets of the arguments in order], node)] for every format!/format_args! under h"""
     out = []
     for n in H.walk(H.root(h) if "value" in h else h):
@@ -59,7 +59,7 @@ def format_calls(h, env):
                     for el in arr["es"]:
                         el = H.strip(el)
                         if el.get("k") == "call" and el.get("args"):
-                            origins.append(H.origins(el["args"][0], env, extra=SEE))
+                            origins.append(H.origins(el["args"][0], env, extra=SEE, accessors=accessors))
             out.append((decode_fmt(bs), origins, n))
     return out
 
